@@ -4,7 +4,7 @@ spec/Rpc.tla holds, per RPC, the boundary classes of every request field, the
 all-valid request, and the two-line contract.  TLC enumerates the request
 vectors (quick: every single-field deviation + the class table from which the
 pairwise rows are computed here; thorough: additionally the full product over
-every core field set = the full product of 22 of the 25 RPCs).  The Go harness
+every core field set = the full product of 23 of the 25 RPCs).  The Go harness
 harness/cmd/rpcfuzz sends every vector to a CHILD PROCESS running the
 production gRPC service (its interceptor chain included) and records
 outcome / status / table-dump difference; TLC (spec/RpcCheck.tla) then
